@@ -118,8 +118,9 @@ func readBins(r io.Reader, version byte, binLimit uint32) ([]bin, *index.Referen
 	if nBins == 0 {
 		return nil, nil, nil
 	}
-	if uint32(nBins) > binLimit {
-		return nil, nil, fmt.Errorf("csi: invalid bin count: %d > %d", nBins, binLimit)
+	// A reference may use every bin and carry the statistics pseudo-bin as well.
+	if uint32(nBins) > binLimit+1 {
+		return nil, nil, fmt.Errorf("csi: invalid bin count: %d > %d", nBins, binLimit+1)
 	}
 	var stats *index.ReferenceStats
 	bins := make([]bin, nBins)
